@@ -126,6 +126,7 @@ func ExecRun(t *testing.T, spec RunSpec) (res RunResult) {
 	res.Labels = tape.Labels
 	res.Inconcl = w.Inconcl
 	res.States = w.States
+	w.flushStep()
 	res.Text = w.Text
 	return res
 }
